@@ -6,17 +6,23 @@
             r is Err ==> is_client_code(status_of(r->Err_0)), // @refused_with_a_400_level_error
             // the accept value prepared for the 101 response is the digest of THIS request's key
             r is Ok ==> r->Ok_0.0 is Some && r->Ok_0.0->Some_0.accept_key@ == accept_of(request_key(request.headers)), // @accept_key_is_derived_from_the_requests_key
+//@ body_start
+        broadcast use ax_str_ext_b;
 //@ closure 0
 |hv: &HeaderValue| -> (o: Option<&str>) ensures (o is Some) == hv_is_text(*hv), o is Some ==> o->Some_0@ == hv_view(*hv)
 //@ closure 1
-|hv: &str| -> (b: bool) ensures b == has_token(hv@, "upgrade"@)
+|hv: &str| -> (b: bool) ensures b == has_token(hv, "upgrade"@)
 //@ closure 2
-|v: &HeaderValue| -> (o: Option<&str>) ensures (o is Some) == hv_is_text(*v), o is Some ==> o->Some_0@ == hv_view(*v)
+|vs: &str| -> (b: bool) ensures b == (ascii_lower(vs@) == ascii_lower("upgrade"@))
 //@ closure 3
-|v: &str| -> (b: bool) ensures b == has_token(v@, "websocket"@)
+|v: &HeaderValue| -> (o: Option<&str>) ensures (o is Some) == hv_is_text(*v), o is Some ==> o->Some_0@ == hv_view(*v)
 //@ closure 4
-|hv: &HeaderValue| -> (k: &[u8]) ensures k@ == hv_bytes(*hv)
+|v: &str| -> (b: bool) ensures b == has_token(v, "websocket"@)
 //@ closure 5
-|key: &[u8]| -> (a: String) ensures a@ == accept_of(key@)
+|v: &str| -> (b: bool) ensures b == (ascii_lower(v@) == ascii_lower("websocket"@))
 //@ closure 6
+|hv: &HeaderValue| -> (k: &[u8]) ensures k@ == hv_bytes(*hv)
+//@ closure 7
+|key: &[u8]| -> (a: String) ensures a@ == accept_of(key@)
+//@ closure 8
 || -> (h: HttpError) ensures status_of(h) == 400
